@@ -1,7 +1,9 @@
 """C19 — an error while processing any tile is reported, never swallowed by parallelism (E3: BMC with a symbolic fault).
 
 The C03 stage models and the C01 walk model are re-built from the real code with ONE failing callback: the failing
-item / tile is a solver variable, the worker that runs it dies (non-zero exit code, its item lost).  Whether the entry
+item / tile is a solver variable; what the worker then does is EXTRACTED from the real worker function (the exception
+leaves it = the process dies with a non-zero exit code; or it swallows the exception and exits 0 / keeps going /
+keeps going and exits non-zero at the end); its item is lost.  Whether the entry
 point notices is EXTRACTED: the real entry points are run against recording fakes whose workers report a non-zero exit
 code / are not alive, and the model raises exactly where the real code reads that status and raises.
 Assertion for ALL schedules and every fault position: the entry point terminates by raising — it neither returns
@@ -39,13 +41,13 @@ def job_walk(run, cfg_name, n_workers, cap):
 def check_stage(run, stage, n_items, n_workers):
     name = "%s[I=%d,W=%d]" % (stage.name, n_items, n_workers)
     script, rec = C03.producer_script(stage, n_items, n_workers)
-    table = C03.worker_table(stage)
+    table = C03.worker_table(stage, ([op for op in script if op[0] == 'put'] or [(0, 0, None)])[0][2])
     detects, rec2 = stage_detects(stage, n_items, n_workers)
     ts = mpmodel.stage_ts(script, table, n_workers, fault=True, detects=detects)
     U = bmc.Unrolled(ts, ts.max_steps)
     puts = [op for op in script if op[0] == "put"]
     run.extra.setdefault("models", {})[name] = dict(script=[str(op[0]) for op in script], reads_exit_status=any(op[0] == "exitcode" for op in script),
-                                                      raises_on_failed_worker=detects, steps=ts.max_steps)
+                                                      raises_on_failed_worker=detects, worker_on_failing_item=table.get("on_raise"), steps=ts.max_steps)
     fin = U.final()
     queries = [
         ("failure-is-visible", U.exists(lambda s: z3.And(s["pc"] == ts.end_pc, s["raised"] == 0)),
@@ -59,7 +61,7 @@ def check_stage(run, stage, n_items, n_workers):
             run.ob(nm, "unsat", "E3:bmc", "all schedules x every failing item; exit status read and raised on: %s" % detects, queries=1, solver_s=dt)
         elif r == "sat":
             fi = m.eval(ts.fault_item, model_completion=True).as_long()
-            fkey = stage.item_key(puts[fi][2])
+            fkey = stage.message_key(puts[fi][2])
             trace = U.trace(m)
             obs = C03.replay_trace(stage, n_items, n_workers, trace, fault_key=fkey)
             swallowed = bool(obs.get("returned"))
@@ -68,7 +70,7 @@ def check_stage(run, stage, n_items, n_workers):
                 text = ("# schedule + failing item found by the solver, replayed on the real %s (deterministic thread scheduler, failure injected)\n"
                         "import sys\nsys.path.insert(0, %r)\nimport props.C03 as P\nfrom props.stages import STAGES\n"
                         "st = [s for s in STAGES if s.name == %r][0]\nscript, rec = P.producer_script(st, %d, %d)\nputs = [op for op in script if op[0] == 'put']\n"
-                        "obs = P.replay_trace(st, %d, %d, %r, fault_key=st.item_key(puts[%d][2]))\nprint({k: obs.get(k) for k in ('returned', 'raised', 'calls', 'procs')})\n"
+                        "obs = P.replay_trace(st, %d, %d, %r, fault_key=st.message_key(puts[%d][2]))\nprint({k: obs.get(k) for k in ('returned', 'raised', 'calls', 'procs')})\n"
                         "sys.exit(1 if (obs.get('returned') or not obs.get('raised')) else 0)\n"
                         ) % (stage.name, str(__import__("vlib.core").core.VERIF), stage.name, n_items, n_workers, n_items, n_workers, trace, fi)
                 run.violation(nm, "%s:worker-failure-swallowed" % stage.name,
@@ -83,7 +85,7 @@ def check_stage(run, stage, n_items, n_workers):
     nm = "%s.twin" % name
     if r == "sat":
         fi = m.eval(ts.fault_item, model_completion=True).as_long()
-        obs = C03.replay_trace(stage, n_items, n_workers, U.trace(m), fault_key=stage.item_key(puts[fi][2]))
+        obs = C03.replay_trace(stage, n_items, n_workers, U.trace(m), fault_key=stage.message_key(puts[fi][2]))
         run.replays += 1
         if obs.get("raised"):
             run.ob(nm, "twin-sat", "E3:bmc+detsched", "under a model schedule with item %d failing the REAL entry point raises: %s" % (fi, obs["raised"]), queries=1, solver_s=dt)
@@ -136,7 +138,7 @@ def check_backpressure(run, stage, n_workers):
             run.ob(nm, "unsat", "E3:bmc", "%d items on a queue of %d, all schedules incl. put() time-outs, failing item among the first two; reaction to queue.Full: %s" % (n_items, maxsize, full), queries=1, solver_s=dt)
         elif r == "sat":
             fi = m.eval(ts.fault_item, model_completion=True).as_long()
-            fkey = stage.item_key(puts[fi][2])
+            fkey = stage.message_key(puts[fi][2])
             trace = U.trace(m)
             obs = C03.replay_trace(stage, n_items, n_workers, trace, fault_key=fkey)
             swallowed = bool(obs.get("returned"))
@@ -145,7 +147,7 @@ def check_backpressure(run, stage, n_workers):
                 text = ("# schedule + failing item found by the solver (with a put() time-out on the full queue), replayed on the real %s\n"
                         "import sys\nsys.path.insert(0, %r)\nimport props.C03 as P\nfrom props.stages import STAGES\n"
                         "st = [s for s in STAGES if s.name == %r][0]\nscript, rec = P.producer_script(st, %d, %d)\nputs = [op for op in script if op[0] == 'put']\n"
-                        "obs = P.replay_trace(st, %d, %d, %r, fault_key=st.item_key(puts[%d][2]))\nprint({k: obs.get(k) for k in ('returned', 'raised', 'calls', 'procs')})\n"
+                        "obs = P.replay_trace(st, %d, %d, %r, fault_key=st.message_key(puts[%d][2]))\nprint({k: obs.get(k) for k in ('returned', 'raised', 'calls', 'procs')})\n"
                         "sys.exit(1 if (obs.get('returned') or not obs.get('raised')) else 0)\n"
                         ) % (stage.name, str(__import__("vlib.core").core.VERIF), stage.name, n_items, n_workers, n_items, n_workers, trace, fi)
                 run.violation(nm, "%s:worker-failure-swallowed-after-put-timeout" % stage.name,
@@ -190,7 +192,7 @@ def check_walk(run, cfg, n_workers, cap):
     shutdown, done_max, nstart, seeds, loop_polls, apex_breaks = C01.shutdown_script(cfg, n_workers)
     loop_detects = walk_detection(cfg, n_workers)
     ts = mpmodel.walk_ts(cfg.tree, n_workers, R, table["post_item"], done_max, shutdown, fault=True, max_live_seeds=cap, apex_breaks=apex_breaks,
-                         loop_detects_dead=loop_detects, flag_read=table.get("flag_read", "after_empty"), early_set=C01.EARLY_SET.get(cfg.name, []))
+                         loop_detects_dead=loop_detects, flag_read=table.get("flag_read", "after_empty"), early_set=C01.EARLY_SET.get(cfg.name, []), on_raise=table.get("on_raise", "die"))
     U = bmc.Unrolled(ts, ts.max_steps, timeout_ms=500000)
     run.extra.setdefault("models", {})[name] = dict(dispatcher_raises_on_dead_worker=loop_detects, shutdown=[str(o) for o in shutdown], steps=ts.max_steps)
     fin = U.final()
